@@ -1511,7 +1511,17 @@ fn random_sig(rng: &mut Prng) -> (Sig, Ty) {
                             None => sb.tx(f),
                         });
                     } else {
-                        srcs.push(sb.tx(f));
+                        // a nested reference to the generic type itself must be at its own parameter
+                        // (`G0<a>`), otherwise the declaration is polymorphically recursive and rejected
+                        let mut tx = sb.tx(f);
+                        if generic_arg[ui].is_some() {
+                            let me_tx = sb.decls[me].texpr.clone();
+                            if tx.contains(&me_tx) {
+                                recursive = true;
+                                tx = tx.replace(&me_tx, &format!("G{}<a>", ui));
+                            }
+                        }
+                        srcs.push(tx);
                     }
                     fields.push(f);
                 }
@@ -1600,7 +1610,10 @@ fn random_pat(sig: &Sig, ty: Ty, d: usize, rng: &mut Prng) -> P {
         return P::W;
     }
     match ty {
-        Ty::Int => P::I(INT_POOL[rng.below(if rng.chance(3, 4) { 4 } else { INT_POOL.len() })]),
+        Ty::Int => {
+            let n = if rng.chance(3, 4) { 4 } else { INT_POOL.len() };
+            P::I(INT_POOL[rng.below(n)])
+        }
         Ty::Bytes => P::B(rng.pick(&bytes_pool()).clone()),
         Ty::Data(t) => {
             let ci = rng.below(sig[t].ctors.len());
